@@ -566,7 +566,12 @@ def wildcard_value_is_evaluated_once(col):
             if not got.ok:
                 col.violation('C11/wildcard-assignment-raises', '%s via %s: %r' % (desc, via, got.exc), None)
                 continue
-            stored = read(t)
+            rd = call(read, t)
+            if not rd.ok:
+                col.violation('C11/wildcard-assignment-misses-a-match', '%s via %s: a place the wildcard matches was not assigned (%r); target now %s'
+                              % (desc, via, rd.exc, short(t, 300)), None)
+                continue
+            stored = rd.value
             if want is not None and stored != want:
                 col.violation('C11/wildcard-value-evaluated-per-match', '%s via %s: the matches now hold %r; evaluating the value once against the '
                               'target as it was and storing it at every match gives %r' % (desc, via, stored, want), None)
